@@ -187,6 +187,12 @@ func convProbe[S, D signal.SignalTypes](f func(*signal.Buffer[S], *signal.Buffer
 		}
 		parent := signal.Alloc[D](signal.Allocator{Channels: ch, Length: length + 5, Capacity: length + 5})
 		dst := parent.Slice(2, 2+length)
-		return func() { SinkInt = f(src, dst) }
+		// operands of different lengths, both ways
+		srcLong := signal.Alloc[S](signal.Allocator{Channels: ch, Length: length + 3, Capacity: length + 3})
+		for i := 0; i < srcLong.Len(); i++ {
+			srcLong.SetSample(i, S(i%5))
+		}
+		dstLong := parent.Slice(1, 3+length)
+		return func() { SinkInt = f(src, dst) + f(srcLong, dst) + f(src, dstLong) }
 	}
 }
